@@ -413,11 +413,18 @@ func (u *Unit) activateWitnesses(t *Term) {
 		if f == nil || !u.S.Alive(f.scope) || (f.active && u.S.Alive(f.activeScope)) {
 			continue
 		}
-		f.active, f.activeScope = true, u.S.ScopeID()
-		for _, g := range u.seqFacts {
-			if u.S.Alive(g.scope) {
-				u.instSeq(g, f.wk)
-			}
+		u.activate(f)
+	}
+}
+
+func (u *Unit) activate(f *seqFact) {
+	if f.active && u.S.Alive(f.activeScope) {
+		return
+	}
+	f.active, f.activeScope = true, u.S.ScopeID()
+	for _, g := range u.seqFacts {
+		if u.S.Alive(g.scope) {
+			u.instSeq(g, f.wk)
 		}
 	}
 }
